@@ -58,10 +58,10 @@ def serve_range(data: bytes, header):
 class _FakeProtocol:
     _reading_paused = False
 
-    def pause_reading(self):
+    def pause_reading(self, *a, **k):
         pass
 
-    def resume_reading(self):
+    def resume_reading(self, *a, **k):
         pass
 
 
